@@ -537,7 +537,46 @@ impl Gen {
                 _ => Cond::Not(Box::new(a)),
             };
         }
-        if r < 32 {
+        if r < 31 {
+            // an arithmetic or bitwise term under the comparison; operands are
+            // kept where nothing can overflow (C13 is not claimed here, only
+            // that rows are selected by the documented value)
+            let small16 = c.ty == CType::I16;
+            let is_str = c.is_str();
+            let aop = if is_str {
+                *self.rng.pick(&[AOp::Add, AOp::Add, AOp::Add, AOp::Sub, AOp::Div, AOp::Neg])
+            } else if small16 {
+                *self.rng.pick(&[AOp::Add, AOp::Sub, AOp::Mul, AOp::Div, AOp::Div, AOp::And, AOp::Or, AOp::Xor, AOp::Shl, AOp::Shr, AOp::Neg, AOp::Inv])
+            } else {
+                *self.rng.pick(&[AOp::Div, AOp::Div, AOp::And, AOp::Or, AOp::Xor, AOp::Shr, AOp::Neg, AOp::Inv])
+            };
+            let l = if is_str {
+                match aop {
+                    AOp::Add if self.rng.chance(850) => Val::Str(self.filler(2, None)),
+                    AOp::Div => Val::Int(0),
+                    _ => Val::Int(1),
+                }
+            } else {
+                match aop {
+                    AOp::Shl => Val::Int(self.rng.range(0, 8) as i32),
+                    AOp::Shr => Val::Int(self.rng.range(0, 31) as i32),
+                    AOp::Div => Val::Int(*self.rng.pick(&[2, 2, 3, -2, -3, 7, 1, -1, 0, 10])),
+                    AOp::Mul => Val::Int(self.rng.range(-100, 100) as i32),
+                    AOp::Add if self.rng.chance(60) => Val::Str("x".into()),
+                    _ => Val::Int(self.rng.range(-1000, 1000) as i32),
+                }
+            };
+            let rhs = if !t.rows.is_empty() && self.rng.chance(750) {
+                arith(&t.rows[self.rng.usize_below(t.rows.len())][ci], aop, &l)
+            } else if self.rng.chance(150) {
+                Val::Null
+            } else {
+                Val::Int(self.rng.range(-4, 4) as i32)
+            };
+            let op = *self.rng.pick(&[CmpOp::Eq, CmpOp::Eq, CmpOp::Ne, CmpOp::Lt, CmpOp::Le, CmpOp::Gt, CmpOp::Ge]);
+            return Cond::Arith(c.name.clone(), aop, l, op, rhs);
+        }
+        if r < 33 {
             return Cond::Truthy(c.name.clone());
         }
         if r < 35 {
